@@ -704,3 +704,34 @@ Definition db_abs (db : idb) : res (list N) :=
   | [] => Ok []
   | _ => do dl <- parse_index (db_meta db); blocks_elems (db_blocks db) dl
   end.
+
+(* ---- indexPruner.pruneEntry (history_index_pruner.go:341-385), bsize = 0,
+   applied to the one metadata entry of the store (prunePrefix visits every
+   existing metadata entry; a parse error is logged and the entry is skipped).
+   Returns the store after the batch is written and the number of blocks pruned. ---- *)
+Fixpoint prune_count (dl : list desc) (tail : N) : nat :=
+  match dl with
+  | [] => O
+  | d :: r => if d_max d <? tail then S (prune_count r tail) else O   (* break *)
+  end.
+
+Definition prune_entry (db : idb) (tail : N) : idb * nat :=
+  let blob := db_meta db in
+  match blob with
+  | [] => (db, O)                       (* no metadata entry: nothing is visited *)
+  | _ =>
+      (* fast path: first 8 bytes = max id of the first block *)
+      if Nat.leb 8 (length blob) && (tail <=? be_num (firstn 8 blob)) then (db, O) else
+      match parse_index blob with
+      | Err _ => (db, O)
+      | Ok descList =>
+          let count := prune_count descList tail in
+          match count with
+          | O => (db, O)
+          | _ =>
+              let bs := fold_left (fun bs d => blk_del bs (d_id d)) (firstn count descList) (db_blocks db) in
+              let remaining := skipn count descList in
+              (mkDB (flat_map desc_encode remaining) bs, count)   (* remaining = [] deletes the entry *)
+          end
+      end
+  end.
